@@ -47,20 +47,21 @@ def run(sc, tier, replay):
     stats = {}
     sample = None
     sample_runs = None
-    for name, (feats, share) in strata.items():
-        nsh = 14
-        worlds = max(1, int(total_worlds * share / nsh))
-        outs = fedlib.gen_traces(sc, binary, nsh, worlds, ops, ",".join(feats), cfgs="default,cached",
-                                 extra=["-mode", "repeat", "-repeats", str(repeats)], seed_base=vlib.seed() * 1000 + {"core": 0, "skeleton": 250, "rootnode": 750}.get(name, 500))
+    def handle(name, outs):
+        nonlocal sample, sample_runs
         runs = []
         for o, r in outs:
             if r.timed_out:
                 raise vlib.MachineryError("fed driver timed out")
             if r.returncode != 0:
                 msg = [l for l in r.stderr.splitlines() if l.startswith("panic:") or l.startswith("fatal error:")]
-                V.violation("%s/crash:%s" % (name, (msg[0] if msg else "exit %d" % r.returncode)[:80]), "the gateway process died during repeated execution", {"stderr": r.stderr[-4000:]})
+                if r.returncode == 3 or vlib.panic_in_code_under_test(r.stderr):
+                    V.violation("%s/%s" % (name, ("hang" if r.returncode == 3 else "crash:" + (msg[0] if msg else "exit %d" % r.returncode))[:80]),
+                                "the gateway process died or hung during repeated execution", {"stderr": r.stderr[-4000:]})
+                else:
+                    raise vlib.MachineryError("fed driver failed: %s" % r.stderr[-2000:])
             runs += load(o)
-        rej, mono, st = vlib.validate_lenient(sc, "Determinism", "Determinism.cfg", runs, name)
+        rej, mono, st = vlib.validate_lenient(sc, "Determinism", "Determinism.cfg", runs, name.replace("/", "-"))
         keys = set()
         for r in runs:
             for e in r["events"]:
@@ -70,16 +71,50 @@ def run(sc, tier, replay):
             tags = set(ev.get("tags") or [])
             feats2 = sorted(fedlib.DEFECT_TAGS[t] for t in tags if t in fedlib.DEFECT_TAGS)
             prefix = "+".join(feats2) if feats2 else "core"
-            sig = "%s/nondeterministic-%s%s" % (prefix, payload, "-under-fault" if ev.get("fault") else "")
-            what = "execution %d of\n%s\ndiffers from execution 0 in %s" % (ev["k"], ev["text"], payload)
+            sig = "%s/nondeterministic-%s%s%s" % (prefix, payload, "-under-fault" if ev.get("fault") else "", "-by-completion-order" if "waves" in ev else "")
+            what = "execution %d of\n%s\ndiffers from execution 0 in %s%s" % (ev["k"], ev["text"], payload,
+                                                                           ("\n(calls per wave: %s; completion order forced)" % ev["waves"]) if "waves" in ev else "")
             V.violation(sig, what, {"world": r["world"], "first": first, "later": ev})
         stats[name] = dict(worlds=len(runs), operations=len(keys), executions=sum(len(r["events"]) for r in runs), refused=len(rej), tlc=st,
-                           with_fault=len({(r["id"], e["key"]) for r in runs for e in r["events"] if e.get("fault")}))
-        log("stratum %-9s worlds %4d operations %6d executions %7d refused %d" % (name, len(runs), len(keys), stats[name]["executions"], len(rej)))
+                           with_fault=len({(r["id"], e["key"]) for r in runs for e in r["events"] if e.get("fault")}),
+                           concurrent_waves=sum(1 for r in runs for e in r["events"] if e.get("k") == 0 and any(x > 1 for x in e.get("waves", []))))
+        log("stratum %-16s worlds %4d operations %6d executions %7d refused %d" % (name, len(runs), len(keys), stats[name]["executions"], len(rej)))
         if sample is None and runs and runs[0]["events"]:
             e = runs[0]["events"][0]
             sample = {"key": e["key"], "operation": e["text"], "errors": e["errors"], "reqs": e["reqs"]}
             sample_runs = runs[:2]
+
+    nsh = 14
+    for name, (feats, share) in strata.items():
+        worlds = max(1, int(total_worlds * share / nsh))
+        outs = fedlib.gen_traces(sc, binary, nsh, worlds, ops, ",".join(feats), cfgs="default,cached",
+                                 extra=["-mode", "repeat", "-repeats", str(repeats)], seed_base=vlib.seed() * 1000 + {"core": 0, "skeleton": 250, "rootnode": 750}.get(name, 500))
+        handle(name, outs)
+
+    # ---- completion orders: spec/ExecMerge.tla.  Design level: merging in completion order is order-independent with the
+    # rule the code uses now and is not with "last one wins"; TLC enumerates the completion orders of 2..4 concurrent calls,
+    # which are forced on the real executor through gated service calls
+    d_ok = vlib.run_tlc(sc, "ExecMerge", "ExecMerge_nullkeeps.cfg", workers=2, name="merge-ok", timeout=600)
+    d_bad = vlib.run_tlc(sc, "ExecMerge", "ExecMerge_lastwins.cfg", workers=2, name="merge-lastwins", timeout=600, allow_violation=True)
+    if d_bad.violated != "OrderIndependent":
+        raise vlib.MachineryError("ExecMerge: last-one-wins merging is order-independent?")
+    orders_path = sc.path("orders.ndjson")
+    norders = 0
+    with open(orders_path, "w") as f:
+        for n in (2, 3, 4):
+            r = vlib.run_tlc(sc, "ExecMerge", "ExecMergeOrders%d.cfg" % n, workers=1, serial=True, name="orders%d" % n, timeout=300)
+            for o in r.printed:
+                f.write(json.dumps(o) + "\n")
+                norders += 1
+    if norders != 2 + 6 + 24:
+        raise vlib.MachineryError("ExecMerge printed %d completion orders" % norders)
+    for name, feats in (("orders/core", off + ["richargs"]), ("orders/rootnode", off + ["rootnode"]), ("orders/abstract", off + ["abstract"])):
+        worlds = max(1, int((total_worlds // 4) / nsh))
+        outs = fedlib.gen_traces(sc, binary, nsh, worlds, ops, ",".join(feats), cfgs="default",
+                                 extra=["-mode", "orders", "-orders", orders_path], seed_base=vlib.seed() * 1000 + 900 + len(name))
+        handle(name, outs)
+    stats["design"] = {"tlc": {"states": d_ok.distinct + d_bad.distinct}, "executions": 0, "operations": 0,
+                       "ExecMerge": {"nullkeeps": "OrderIndependent holds (%d states)" % d_ok.distinct, "lastwins": "violated", "completion_orders": norders}}
     # negative control: a differing later observation must be refused
     ctrl = copy.deepcopy(sample_runs)
     done = False
